@@ -75,6 +75,12 @@ func newDisjunctionSearcher(ctx context.Context, indexReader index.IndexReader,
 				for _, s := range qsearchers {
 					_ = s.Close()
 				}
+				// keep reporting the requested minimum: a boolean searcher
+				// asks its should searcher for Min() and treated the
+				// optimized should clauses as optional (Min() == 0)
+				if ts, ok := rv.(*TermSearcher); ok {
+					ts.min = int(min)
+				}
 				return rv, nil
 			}
 		}
